@@ -109,6 +109,14 @@ pub fn run() -> Report {
                 }
             }
         }
+        // the record's length field is not the block's length (one short, the length without the section, 0, 24 or 1000 too
+        // long, 0xffffffff): the section is delimited by its own structure, not by the envelope; blocks alone in their file
+        // (nothing behind them) and with neighbours
+        for v in 0..6u8 {
+            for parent_cb in 0..3u8 {
+                cases.push(Case { coin: cn, versions: vec![thr, thr - 1, thr + 1, thr], section: Section { parent_cb, cb_branch: 2, chain_branch: 1, mask: 1, parent_version: 0, wide: 0 }, label: format!("length-field#{}", v) });
+            }
+        }
         // a parent coinbase far larger than any buffer: 70 000-byte scriptSig, 300 outputs
         cases.push(Case { coin: cn, versions: vec![thr, thr - 1, thr + 5], section: Section { parent_cb: 3, cb_branch: 3, chain_branch: 2, mask: 7, parent_version: 0, wide: 0 }, label: "huge-parent-coinbase".into() });
         // a section of more than 20 MB in total (beyond 2^24 bytes and any plausible "no block is that large" budget): a 17 MB
@@ -135,7 +143,7 @@ pub fn run() -> Report {
     for c in COINS.iter().filter(|c| c.auxpow_from.is_none()) {
         cases.push(Case { coin: c.name, versions: vec![1, 0x10100, 0x10101, 0x10102, 0x620101, 0x620102, 0x620103, 0x7fff_ffff, 0x8000_0000, 0xffff_fffe, 0xffff_ffff], section: default_sec.clone(), label: "negative-control".into() });
     }
-    rep.rule = "namecoin/dogecoin: all 27 orders of below/at/above-threshold versions in a 3-block chain; full product parent-coinbase form (legacy, legacy 0xfd-script, segwit) x coinbase-branch {0,1,2} x chain-branch {0,1,2} x masks {0,1,0xffffffff} x parent-header version {0x20000000, the block's own version, 1}; long-branch sweeps across the 0xfd CompactSize boundary; both branch lengths in all 16 combinations of the four CompactSize forms and the parent coinbase's counts / script lengths in wider forms than needed; the parent header shifted byte by byte (130 positions) across the 32 KiB and 64 KiB marks of the block; six other coins with 11 versions around both thresholds and up to 0xffffffff (never a section); --verify on; non-trivial = distinct case with >= 1 block carrying a section, or a negative control".into();
+    rep.rule = "namecoin/dogecoin: all 27 orders of below/at/above-threshold versions in a 3-block chain; full product parent-coinbase form (legacy, legacy 0xfd-script, segwit) x coinbase-branch {0,1,2} x chain-branch {0,1,2} x masks {0,1,0xffffffff} x parent-header version {0x20000000, the block's own version, 1}; long-branch sweeps across the 0xfd CompactSize boundary; records whose length field is not the block's length (6 variants x 3 parent-coinbase forms, blocks alone in their file and with neighbours); both branch lengths in all 16 combinations of the four CompactSize forms and the parent coinbase's counts / script lengths in wider forms than needed; the parent header shifted byte by byte (130 positions) across the 32 KiB and 64 KiB marks of the block; six other coins with 11 versions around both thresholds and up to 0xffffffff (never a section); --verify on; non-trivial = distinct case with >= 1 block carrying a section, or a negative control".into();
     rep.bound = json!({"cases": cases.len(), "max_branch": if thorough { 1000 } else { 0xfd }});
     let root = refmodel::world::scratch_root();
     let parts = par_fold(
@@ -158,7 +166,27 @@ pub fn run() -> Report {
                 }
                 cb.blocks.push(b);
             }
-            let world = World::laid_out(cn, &cb.blocks, 0, i);
+            let mut world = World::laid_out(cn, &cb.blocks, 0, i);
+            let mut mblocks = cb.mblocks();
+            if let Some(v) = c.label.strip_prefix("length-field#") {
+                let v: u8 = v.parse().unwrap_or(0);
+                world = World::new(cn);
+                mblocks.clear();
+                for (h, b) in cb.blocks.iter().enumerate() {
+                    let len = b.ser().len() as u32;
+                    let prefix = match v {
+                        0 => len - 1,
+                        1 => (80 + 1 + b.txs.iter().map(|t| t.ser().len()).sum::<usize>()) as u32,
+                        2 => 0,
+                        3 => len + 24,
+                        4 => len + 1000,
+                        _ => 0xffff_ffff,
+                    };
+                    // heights 0,1 share a file; every later block is alone in (and therefore the last record of) its file
+                    world.add_block_prefixed(if h < 2 { 0 } else { h as u64 }, h as u64, b, prefix);
+                    mblocks.push(refmodel::model::MBlock { height: h as u64, size: prefix, block: b.clone() });
+                }
+            }
             let start = if genesis(cn).is_none() { Some(1) } else { None };
             // verbosity is an option like any other: cases rotate through default, -v, -vv, -vvv
             let mut spec = RunSpec::new(c.coin, "csvdump").verify(true).range(start, None);
@@ -173,11 +201,11 @@ pub fn run() -> Report {
             acc.states += 1;
             acc.transitions += 1;
             let (s, e) = (r.declared_start().unwrap_or(start.unwrap_or(0)), r.declared_end().unwrap_or(c.versions.len() as u64));
-            let bad = check_csvdump(&r, cn, &in_range(&cb.mblocks(), s, e), s, e);
+            let bad = check_csvdump(&r, cn, &in_range(&mblocks, s, e), s, e);
             if n_sections > 0 || c.label == "negative-control" {
                 acc.nontrivial.insert(h8(format!("{:?}", c).as_bytes()));
             }
-            acc.count(&c.label, 1);
+            acc.count(c.label.split('#').next().unwrap_or(""), 1);
             acc.count("blocks-with-section", n_sections);
             acc.outcomes.insert(h8(&r.files.values().flat_map(|v| refmodel::hash::sha256(v).to_vec()).collect::<Vec<u8>>()));
             if acc.samples.is_empty() && n_sections > 0 {
